@@ -122,13 +122,14 @@ class Policy(object):
                     return cand
             return ''
         if t is I.StringInput:
-            return r.choice(['Text', 'Jo Doe', '12 Main St', 'X'])
+            # ordinary text plus text with characters that matter to INI files and to PDF form data
+            return r.choice(['Text', 'Jo Doe', '12 Main St', 'X', '5 My Drive #3, rear', 'Smith ; Jones', 'Teacher (retired) 100%'])
         return ''
 
 
-def run_scenario(H, year, forms, seed, profile, overrides=None, initial=None, solver_cls=None, refuse_after=None, on_prompt=None, policy=None):
+def run_scenario(H, year, forms, seed, profile, overrides=None, initial=None, solver_cls=None, refuse_after=None, on_prompt=None, policy=None, initial_file=None):
     """Runs the real solver. Returns dict(ok, solver, store, policy, exc)."""
-    cfg = configparser.ConfigParser()
+    cfg = configparser.ConfigParser(interpolation=None)
     for k, v in (initial or {}).items():
         sec, opt = k.split('.')
         if not cfg.has_section(sec):
@@ -140,7 +141,9 @@ def run_scenario(H, year, forms, seed, profile, overrides=None, initial=None, so
         def __getitem__(self, key):
             inputs_read.add(key)
             return super().__getitem__(key)
-    store = RecStore(cfg)
+    store = RecStore(initial_file if initial_file is not None else cfg)      # a path goes through habutax's own file reader
+    if profile.get('overrides'):
+        overrides = dict(profile['overrides'], **(overrides or {}))
     pol = policy or Policy(seed, dict(profile, year=year), overrides)
     count = [0]
 
@@ -171,9 +174,36 @@ def run_scenario(H, year, forms, seed, profile, overrides=None, initial=None, so
 STATUSES = ['Single', 'MarriedFilingJointly', 'MarriedFilingSeparately', 'HeadOfHousehold', 'QSS']
 
 
-def scenario_stream(rng, n, years=common.YEARS):
-    """Seeded scenario descriptions (year, forms, seed, profile)."""
+def special_scenarios(years=common.YEARS):
+    """Hand-built situations the random profiles rarely reach: two copies of a per-person form (8889, 8606 for both spouses),
+    a line kept to five decimal places (8606 line 10), North Carolina with cents.  Fixed, independent of the seed."""
     out = []
+    base = {'amounts': 'cents', 'n_w2': 1, 'itemize': False, 'foreign': False, 'n_dep': 0, 'n_u17': 0, 'others': False,
+            'zero_frac': 0.8, 'benign_true': 0.5}
+    for y in years:
+        hsa = {'schedule_1_income_adjustments': 'yes', 'hsa_contribution_you': 'yes', 'hsa_contribution_spouse': 'yes', 'hsa_contributions': '1000.50',
+               'age_under_55': 'yes', 'hsa_full_year': 'yes', 'hdhp_plan_family': 'no', 'part_2_needed': 'no', 'part_3_needed': 'no',
+               'qualified_distribution': 'no', 'employer_contribution': '0.00', 'archer_msa': '0.00', 'principal_abode_us': 'yes'}
+        out.append((y, ['1040'], 9001, dict(base, status='MarriedFilingJointly', wages=100000, overrides=hsa)))
+        ira = {'number_1099-r': '1', 'ira_exception1_you': 'no', 'ira_exception2_you': 'yes', 'ira_exception3_you': 'no', 'ira_exception4_you': 'no',
+               'ira_exception1_spouse': 'no', 'ira_exception2_spouse': 'no', 'ira_exception3_spouse': 'no', 'ira_exception4_spouse': 'no',
+               '1099-r:0.belongs_to': 'taxpayer', '1099-r:0.box_1': '10000.00', '1099-r:0.box_2a': '10000.00', '1099-r:0.box_2b_taxable_not_determined': 'yes',
+               '1099-r:0.box_2b_total_distribution': 'no', '1099-r:0.box_7_ira_sep_simple': 'yes', '1099-r:0.box_4': '0.00',
+               'part_1_needed': 'yes', 'nondeductible_contributions': '6000.00', 'traditional_basis': '1000.00', 'distribution_or_roth_conversion': 'yes',
+               'nondeductible_contributions_next_year': '0.00', 'year_end_value_non_roth': '40000.00', 'distributions_%d' % y: '10000.00',
+               'qualified_disaster_distributions': 'no', 'net_converted': '10000.00', 'part_2_needed': 'yes', 'part_3_needed': 'no',
+               'pensions_annuities_adjustments': 'no', 'principal_abode_us': 'yes'}
+        out.append((y, ['1040'], 9002, dict(base, status='Single', wages=60000, overrides=ira)))
+        nc = {'number_1098': '1', 'principal_abode_us': 'yes', 'w-2:0.box_17': '5069.75', 'w-2:0.box_15': 'NC', 'w-2:0.box_16': '60000.40',
+              '%d_estimated_income_tax' % (y + 1): '0.00', 'nc_nongame_endangered_wildlife': '0.00', 'nc_education_endowment': '0.00',
+              'nc_breast_cervical_cancer': '0.00', 'purchases': '1234.56'}
+        out.append((y, ['1040', 'nc_d-400'], 9003, dict(base, status='Single', wages=60000, overrides=nc)))
+    return out
+
+
+def scenario_stream(rng, n, years=common.YEARS):
+    """The fixed special scenarios, then n seeded scenario descriptions (year, forms, seed, profile)."""
+    out = special_scenarios(years)
     for k in range(n):
         year = years[k % len(years)]
         status = STATUSES[(k // len(years)) % 5]
